@@ -16,7 +16,9 @@ static async<int> co_susp(future<int> &f, Guard g) { Guard local; g_body_runs[2]
 static async<int> co_nested(int x, Guard g) { Guard local; g_body_runs[3]++; int v = co_await co_value(x, Guard()); co_return v + 100; }
 static async<void> co_void(int x, Guard g) { Guard local; g_body_runs[0]++; co_return; }
 
+extern "C" { int g_seen_pending; }      // the bound future was still pending when the scenario looked at it (value()/exception stored, but never marked ready: a waiter would sleep for ever)
 static void observe(future<int> &f) {
+    if (f.pending()) g_seen_pending++;
     try { g_seen_value = f.value(); }
     catch (const await_canceled_exception &) { g_seen_canceled++; }
     catch (int e) { g_seen_exc = e; }
@@ -71,6 +73,29 @@ int drive_dbg5(int x) { future<int> src; auto p = src.get_promise(); Holder *h =
 }
 extern "C" {
 int drive_dbg6(int x) { future<int> src; int r; { auto p = src.get_promise(); promise<int> q(std::move(p)); void *c = q.claim(); r = (c == &src); } return r && src.pending(); }
+}
+
+// ---- more scenarios with a coroutine that really suspends and is resumed later, and deeper / failing / suspending co_await chains
+extern "C" { int g_outer_runs; }
+static async<int> co_nested_throw(int x, Guard g) { Guard local; g_body_runs[3]++; int v = co_await co_throw(x, Guard()); co_return v + 100; }
+static async<int> co_nested_catch(int x, Guard g) { Guard local; g_body_runs[3]++; int v; try { v = co_await co_throw(x, Guard()); } catch (int e) { v = e + 7; } co_return v; }
+static async<int> co_nested_susp(future<int> &src, Guard g) { Guard local; g_body_runs[3]++; int v = co_await co_susp(src, Guard()); co_return v + 100; }
+static async<int> co_nested3(int x, Guard g) { Guard local; g_outer_runs++; int v = co_await co_nested(x, Guard()); co_return v + 1000; }
+static async<void> co_susp_void(future<int> &f, Guard g) { Guard local; g_body_runs[2]++; int v = co_await f; g_choice = v; co_return; }
+static async<int> co_nested_void(int x, Guard g) { Guard local; g_body_runs[3]++; co_await co_void(x, Guard()); co_return x + 100; }
+extern "C" {
+int drive_susp_void(int x) { future<int> src; auto p = src.get_promise(); future<void> f = co_susp_void(src, Guard()).start(); if (!f.pending()) return 0; { auto sp = p(x); } if (f.pending()) g_seen_pending++; try { f.value(); g_seen_value = g_choice; } catch (...) { g_seen_exc = 1; } return 1; }
+int drive_nested_void(int x) { future<int> f = co_nested_void(x, Guard()).start(); observe(f); return 1; }
+int drive_susp_exception(int x) { future<int> src; auto p = src.get_promise(); future<int> f = co_susp(src, Guard()).start(); if (!f.pending()) return 0; try { throw x; } catch (...) { auto sp = p.set_exception(std::current_exception()); } observe(f); return 1; }
+int drive_susp_promise(int x) { future<int> src; auto p = src.get_promise(); future<int> f; auto q = f.get_promise(); { auto sp = co_susp(src, Guard()).start(q); } if (!f.pending()) return 0; { auto sp = p(x); } observe(f); return 1; }
+int drive_susp_detached(int x) { future<int> src; auto p = src.get_promise(); { auto sp = co_susp(src, Guard()).detach(); } if (g_body_runs[2] != 1 || g_guard_dtor == g_guard_ctor) return 0; { auto sp = p(x); } return 1; }
+int drive_susp_detached_dropped(int x) { future<int> src; auto p = src.get_promise(); { auto sp = co_susp(src, Guard()).detach(); } if (g_body_runs[2] != 1 || g_guard_dtor == g_guard_ctor) return 0; { auto sp = p(drop); } return 1; }
+int drive_detach_throw(int x) { { auto sp = co_throw(x, Guard()).detach(); } return 1; }
+int drive_nested_throw(int x) { future<int> f = co_nested_throw(x, Guard()).start(); observe(f); return 1; }
+int drive_nested_catch(int x) { future<int> f = co_nested_catch(x, Guard()).start(); observe(f); return 1; }
+int drive_nested_susp(int x) { future<int> src; auto p = src.get_promise(); future<int> f = co_nested_susp(src, Guard()).start(); if (!f.pending()) return 0; { auto sp = p(x); } observe(f); return 1; }
+int drive_nested_susp_dropped(int x) { future<int> src; auto p = src.get_promise(); future<int> f = co_nested_susp(src, Guard()).start(); if (!f.pending()) return 0; { auto sp = p(drop); } observe(f); return 1; }
+int drive_nested3(int x) { future<int> f = co_nested3(x, Guard()).start(); observe(f); return 1; }
 }
 
 // ---- join() x completion by exception, async<int> and async<void> (the joiner is the bound party: it must see the exception)
